@@ -487,4 +487,247 @@ theorem trans_recv6 (now : Nat) (draws : List Nat) (c : Conn) (p : Packet) (alt 
           | pending t => simp only [hst] at hf; rw [← hst]; exact feedBody_trans htok hf
           | disconnected => simp only [hst] at hf; rw [← hst]; exact feedBody_trans htok hf
 
+/-! ## the world invariant -/
+
+def hasConnect (e : End (Pr tl)) : Prop := ∃ dg ∈ e.out, isConnect dg.pkt = true
+def hasCA (e : End (Pr tl)) (t : Option Nat) : Prop := ∃ dg ∈ e.out, caTok dg.pkt = some t
+
+theorem hasConnect_book (e : End (Pr tl)) (r : Ret Conn Packet) (sub : List (Bytes × Bool)) :
+    hasConnect (e.book r sub) ↔ hasConnect e ∨ ∃ p ∈ r.sent, isConnect p = true := by
+  simp only [hasConnect, End.book, List.mem_append, List.mem_map]
+  constructor
+  · rintro ⟨dg, hdg | ⟨p, hp, rfl⟩, h⟩
+    · exact Or.inl ⟨dg, hdg, h⟩
+    · exact Or.inr ⟨p, hp, h⟩
+  · rintro (⟨dg, hdg, h⟩ | ⟨p, hp, h⟩)
+    · exact ⟨dg, Or.inl hdg, h⟩
+    · exact ⟨_, Or.inr ⟨p, hp, rfl⟩, h⟩
+
+theorem hasCA_book (e : End (Pr tl)) (r : Ret Conn Packet) (sub : List (Bytes × Bool)) (t : Option Nat) :
+    hasCA (e.book r sub) t ↔ hasCA e t ∨ ∃ p ∈ r.sent, caTok p = some t := by
+  simp only [hasCA, End.book, List.mem_append, List.mem_map]
+  constructor
+  · rintro ⟨dg, hdg | ⟨p, hp, rfl⟩, h⟩
+    · exact Or.inl ⟨dg, hdg, h⟩
+    · exact Or.inr ⟨p, hp, h⟩
+  · rintro (⟨dg, hdg, h⟩ | ⟨p, hp, h⟩)
+    · exact ⟨dg, Or.inl hdg, h⟩
+    · exact ⟨_, Or.inr ⟨p, hp, rfl⟩, h⟩
+
+/-- what the histories say about the handshake state of `e` (peer `peer`) -/
+structure G (tl : Bool) (e peer : End (Pr tl)) : Prop where
+  unc : e.conn.state = .unconnected → ¬ hasConnect e ∧ ∀ t, ¬ hasCA e t
+  cng : e.conn.state = .connecting → hasConnect e ∧ ∀ t, ¬ hasCA e t
+  pnd : ∀ t, e.conn.state = .pending t → ¬ hasConnect e ∧ hasCA e t ∧ ∀ t', hasCA e t' → t' = t
+  onl : ∀ t o, e.conn.state = .online t o →
+    (¬ hasConnect e ∧ hasCA e t ∧ ∀ t', hasCA e t' → t' = t) ∨
+    (hasConnect e ∧ (∀ t', ¬ hasCA e t') ∧ ∃ tp, hasCA peer tp ∧ wtok tl tp = t)
+  excl : hasConnect e → ∀ t, ¬ hasCA e t
+  ans : ∀ t, hasCA e t → hasConnect peer
+
+theorem G.peer_mono {e peer peer' : End (Pr tl)} (h : G tl e peer) (hout : ∀ dg ∈ peer.out, dg ∈ peer'.out) :
+    G tl e peer' := by
+  refine ⟨h.unc, h.cng, h.pnd, ?_, h.excl, ?_⟩
+  · intro t o hst
+    rcases h.onl t o hst with h1 | ⟨a, b, tp, ⟨dg, hdg, hc⟩, hw⟩
+    · exact Or.inl h1
+    · exact Or.inr ⟨a, b, tp, ⟨dg, hout dg hdg, hc⟩, hw⟩
+  · intro t ht
+    obtain ⟨dg, hdg, hc⟩ := h.ans t ht
+    exact ⟨dg, hout dg hdg, hc⟩
+
+theorem G.act {e peer : End (Pr tl)} (h : G tl e peer) {r : Ret Conn Packet} {rx : Option Packet}
+    (tr : Trans e.conn.state r.conn.state r.sent rx)
+    (hrx : ∀ q, rx = some q → (isConnect q = true → hasConnect peer) ∧
+      ∀ t, caTok q = some t → ∃ tp, hasCA peer tp ∧ wtok tl tp = t)
+    (sub : List (Bytes × Bool)) : G tl (e.book r sub) peer := by
+  have hst' : (e.book r sub).conn.state = r.conn.state := rfl
+  -- no new handshake datagram unless the new state is connecting / pending
+  have noC : r.conn.state ≠ .connecting → (hasConnect (e.book r sub) ↔ hasConnect e) := by
+    intro hne
+    rw [hasConnect_book]
+    exact ⟨fun hh => hh.elim id (fun ⟨p, hp, hc⟩ => absurd (tr.t1 p hp hc) hne), Or.inl⟩
+  have noA : ∀ t, (∀ t', r.conn.state ≠ .pending t') → (hasCA (e.book r sub) t ↔ hasCA e t) := by
+    intro t hne
+    rw [hasCA_book]
+    exact ⟨fun hh => hh.elim id (fun ⟨p, hp, hc⟩ => absurd (tr.t2 p hp t hc).1 (hne t)), Or.inl⟩
+  refine ⟨?_, ?_, ?_, ?_, ?_, ?_⟩
+  · intro hs
+    rw [hst'] at hs
+    have h0 := h.unc (tr.t6 hs)
+    rw [noC (by rw [hs]; simp)]
+    refine ⟨h0.1, fun t => ?_⟩
+    rw [noA t (by intro t'; rw [hs]; simp)]
+    exact h0.2 t
+  · intro hs
+    rw [hst'] at hs
+    have hA : ∀ t, hasCA (e.book r sub) t ↔ hasCA e t := fun t => noA t (by intro t'; rw [hs]; simp)
+    rcases tr.t3 hs with h3 | ⟨h3, p, hp, hc⟩
+    · have h0 := h.cng h3
+      exact ⟨(hasConnect_book e r sub).mpr (Or.inl h0.1), fun t => by rw [hA t]; exact h0.2 t⟩
+    · have h0 := h.unc h3
+      exact ⟨(hasConnect_book e r sub).mpr (Or.inr ⟨p, hp, hc⟩), fun t => by rw [hA t]; exact h0.2 t⟩
+  · intro t hs
+    rw [hst'] at hs
+    rw [noC (by rw [hs]; simp)]
+    have hall : ∀ t', (∃ p ∈ r.sent, caTok p = some t') → t' = t := by
+      rintro t' ⟨p, hp, hc⟩
+      have := (tr.t2 p hp t' hc).1
+      rw [hs] at this; injection this with this; exact this.symm
+    rcases tr.t4 t hs with h4 | ⟨h4, p, hp, hc⟩
+    · have h0 := h.pnd t h4
+      refine ⟨h0.1, (hasCA_book e r sub t).mpr (Or.inl h0.2.1), ?_⟩
+      intro t' ht'
+      rcases (hasCA_book e r sub t').mp ht' with ht' | ht'
+      · exact h0.2.2 t' ht'
+      · exact hall t' ht'
+    · have h0 := h.unc h4
+      refine ⟨h0.1, (hasCA_book e r sub t).mpr (Or.inr ⟨p, hp, hc⟩), ?_⟩
+      intro t' ht'
+      rcases (hasCA_book e r sub t').mp ht' with ht' | ht'
+      · exact absurd ht' (h0.2 t')
+      · exact hall t' ht'
+  · intro t o hs
+    rw [hst'] at hs
+    have hC := noC (by rw [hs]; simp)
+    have hA : ∀ t', hasCA (e.book r sub) t' ↔ hasCA e t' := fun t' => noA t' (by intro t''; rw [hs]; simp)
+    simp only [hC, hA]
+    rcases tr.t5 t o hs with ⟨o0, h5⟩ | h5 | ⟨h5, q, hq, hqc⟩
+    · exact h.onl t o0 h5
+    · exact Or.inl (h.pnd t h5)
+    · have h0 := h.cng h5
+      exact Or.inr ⟨h0.1, h0.2, (hrx q hq).2 t hqc⟩
+  · intro hc t hca
+    rcases (hasConnect_book e r sub).mp hc with hc | ⟨p, hp, hpc⟩
+    · rcases (hasCA_book e r sub t).mp hca with hca | ⟨p', hp', hpc'⟩
+      · exact h.excl hc t hca
+      · rcases (tr.t2 p' hp' t hpc').2 with h2 | ⟨h2, _⟩
+        · exact (h.pnd t h2).1 hc
+        · exact (h.unc h2).1 hc
+    · have hs := tr.t1 p hp hpc
+      rcases (hasCA_book e r sub t).mp hca with hca | ⟨p', hp', hpc'⟩
+      · rcases tr.t3 hs with h3 | ⟨h3, _⟩
+        · exact (h.cng h3).2 t hca
+        · exact (h.unc h3).2 t hca
+      · have := (tr.t2 p' hp' t hpc').1
+        rw [hs] at this; cases this
+  · intro t hca
+    rcases (hasCA_book e r sub t).mp hca with hca | ⟨p, hp, hpc⟩
+    · exact h.ans t hca
+    · rcases (tr.t2 p hp t hpc).2 with h2 | ⟨_, q, hq, hqc⟩
+      · exact h.ans t (h.pnd t h2).2.1
+      · exact (hrx q hq).1 hqc
+
+def Agree6 (tl : Bool) (w : World (Pr tl)) : Prop := G tl w.a w.b ∧ G tl w.b w.a
+
+theorem agree6_init (tl : Bool) : Agree6 tl (World.init (Pr tl)) := by
+  have : G tl ({ conn := Conn.new } : End (Pr tl)) { conn := Conn.new } := by
+    refine ⟨fun _ => ⟨?_, fun t => ?_⟩, fun h => (by cases h), fun t h => (by cases h), fun t o h => (by cases h), ?_, ?_⟩
+    · rintro ⟨dg, hdg, _⟩; simp at hdg
+    · rintro ⟨dg, hdg, _⟩; simp at hdg
+    · rintro ⟨dg, hdg, _⟩; simp at hdg
+    · rintro t ⟨dg, hdg, _⟩; simp at hdg
+  exact ⟨this, this⟩
+
+theorem agree6_step {w w' : World (Pr tl)} (h : Agree6 tl w) (m : Move (Pr tl)) (he : step w m = some w') :
+    Agree6 tl w' := by
+  cases m with
+  | advance dt =>
+    simp only [step] at he
+    injection he with he; subst he; exact h
+  | call s draws c =>
+    simp only [step] at he
+    cases hr : (Pr tl).call w.now draws (w.get s).conn c with
+    | error e => rw [hr] at he; cases he
+    | ok r =>
+      rw [hr] at he
+      injection he with he
+      subst he
+      have tr := trans_call6 w.now draws (w.get s).conn c r hr
+      cases s with
+      | a => exact ⟨h.1.act tr (by intro q hq; cases hq) _, h.2.peer_mono (book_out_mono _ _ _)⟩
+      | b => exact ⟨h.1.peer_mono (book_out_mono _ _ _), h.2.act tr (by intro q hq; cases hq) _⟩
+  | deliver to i draws alt =>
+    simp only [step] at he
+    cases hdg : (w.get to.other).out[i]? with
+    | none => rw [hdg] at he; cases he
+    | some dg =>
+      rw [hdg] at he
+      simp only at he
+      cases hr : (Pr tl).recv w.now draws (w.get to).conn dg.pkt alt with
+      | error e => rw [hr] at he; cases he
+      | ok r =>
+        rw [hr] at he
+        injection he with he
+        subst he
+        have hm := List.mem_of_getElem? hdg
+        obtain ⟨rx, tr, hk⟩ := trans_recv6 w.now draws (w.get to).conn dg.pkt alt r hr
+        have hrx : ∀ q, rx = some q → (isConnect q = true → hasConnect (w.get to.other)) ∧
+            ∀ t, caTok q = some t → ∃ tp, hasCA (w.get to.other) tp ∧ wtok tl tp = t := by
+          intro q hq
+          obtain ⟨k1, k2⟩ := hk q hq
+          refine ⟨fun hc => ⟨dg, hm, by rw [← k1]; exact hc⟩, fun t ht => ?_⟩
+          obtain ⟨tp, h1, h2⟩ := k2 t ht
+          exact ⟨tp, ⟨dg, hm, h1⟩, h2⟩
+        cases to with
+        | a => exact ⟨h.1.act tr hrx _, h.2.peer_mono (book_out_mono _ _ _)⟩
+        | b => exact ⟨h.1.peer_mono (book_out_mono _ _ _), h.2.act tr hrx _⟩
+
+theorem agree6_run : ∀ (ms : List (Move (Pr tl))) (w w' : World (Pr tl)), Agree6 tl w → run w ms = some w' →
+    Agree6 tl w' := by
+  intro ms
+  induction ms with
+  | nil => intro w w' h he; simp [run] at he; subst he; exact h
+  | cons m ms ih =>
+    intro w w' h he
+    simp only [run] at he
+    cases hst : step w m with
+    | none => rw [hst] at he; cases he
+    | some w1 => rw [hst] at he; exact ih w1 w' (agree6_step h m hst) he
+
+/-- the token of a pending / online state -/
+def stTok : State → Option (Option Nat)
+  | .pending t => some t
+  | .online t _ => some t
+  | _ => none
+
+/-- **token agreement**: an online endpoint and its pending-or-online peer hold the same token -/
+theorem G.agree {e peer : End (Pr tl)} (h1 : G tl e peer) (h2 : G tl peer e)
+    (hs1 : tokS tl e.conn) (hs2 : tokS tl peer.conn)
+    {t1 : Option Nat} {o1 : Online} (he : e.conn.state = .online t1 o1) {t2 : Option Nat}
+    (hp : stTok peer.conn.state = some t2) : t1 = t2 := by
+  have hw : ∀ t, stTok peer.conn.state = some t → wtok tl t = t := by
+    intro t ht
+    have : peer.conn.state.token? = some t := by
+      cases hst : peer.conn.state <;> rw [hst] at ht <;> simp [stTok] at ht <;> simp [State.token?, ht]
+    have := hs2 t this
+    cases tl <;> simp [wtok] at this ⊢
+    cases t <;> simp at this ⊢
+  -- what the peer's histories say about its token
+  have hpeer : (¬ hasConnect peer ∧ hasCA peer t2 ∧ ∀ t', hasCA peer t' → t' = t2) ∨
+      (hasConnect peer ∧ (∀ t', ¬ hasCA peer t') ∧ ∃ tp, hasCA e tp ∧ wtok tl tp = t2) := by
+    cases hst : peer.conn.state with
+    | pending t => rw [hst] at hp; injection hp with hp; subst hp; exact Or.inl (h2.pnd t hst)
+    | online t o => rw [hst] at hp; injection hp with hp; subst hp; exact h2.onl t o hst
+    | unconnected => rw [hst] at hp; cases hp
+    | connecting => rw [hst] at hp; cases hp
+    | disconnected => rw [hst] at hp; cases hp
+  have hw1 : wtok tl t1 = t1 := by
+    have := hs1 t1 (by simp [State.token?, he])
+    cases tl <;> simp [wtok] at this ⊢
+    cases t1 <;> simp at this ⊢
+  rcases h1.onl t1 o1 he with ⟨a1, a2, a3⟩ | ⟨b1, b2, tp, b3, b4⟩
+  · -- e is the acceptor
+    rcases hpeer with ⟨c1, c2, _⟩ | ⟨_, _, tp, d3, d4⟩
+    · exact absurd (h1.ans t1 a2) c1
+    · have := a3 tp d3
+      subst this
+      rw [← d4, hw1]
+  · -- e is the connector: it took the token of one of the peer's ConnectAccepts
+    rcases hpeer with ⟨_, _, c3⟩ | ⟨d1, d2, _⟩
+    · have := c3 tp b3
+      subst this
+      rw [← b4]; exact hw tp hp
+    · exact absurd b3 (d2 tp)
+
 end Tw.NetSim.P6
